@@ -1,8 +1,8 @@
 #!/bin/bash
-# usage: runall.sh [quick|thorough]  -- runs every registered check on the current tree, one after the other
+# usage: [VERIF_IDS="C02 C07"] runall.sh [quick|thorough]  -- runs every registered check (or the listed ones) on the current tree, one after the other
 cd "$(dirname "$0")/.."
 tier="${1:-quick}"
-for id in C01 C02 C03 C04 C05 C06 C07 C08 C09 C10 C11 C12 C13 C14 C15 C16 C17 C18 C19 C20; do
+for id in ${VERIF_IDS:-C01 C02 C03 C04 C05 C06 C07 C08 C09 C10 C11 C12 C13 C14 C15 C16 C17 C18 C19 C20}; do
   s=$(date +%s)
   ./check $id $tier > /tmp/runall_$id.log 2>&1; rc=$?
   e=$(date +%s)
